@@ -14,6 +14,7 @@ package main
 //   p            the pong that answers the ping P<r> that names this position (udp: RST with the ping's message ID;
 //                tcp: 7.03 with the ping's token, consumed by the socket reader: not a queue message)
 //   d<i>         (udp) a retransmitted copy of request item i (the same datagram again)
+//   n            the registration response to the observation S<r> that names this position
 //   s            a stray response
 //   o[<j>] / O[<j>]  a notification (NON / udp: CON) of observation j (default 1), sequence numbers increasing; the observe
 //                callback of the connection (net/observation: Handler.Handle -> Observation.handle -> observeFunc, on the
@@ -25,6 +26,8 @@ package main
 //   N<r>  blocking nested request (udp: NON GET), response = item r        Nx / Cx / Px: the reply never comes
 //   C<r>  (udp) blocking CONFIRMABLE nested request, piggybacked response = item r
 //   P<r>  Conn.Ping, pong = item r
+//   S<r>  Conn.DoObserve (the handler registers an observation of its own: blocks until the registration response has
+//         been dispatched), registration response = item r, kind n (2.05 with an Observe option; udp: NON request)
 // "@<d>" after a request kind (udp) places the peer's message ID d above the connection's own counter as it stood
 // when the connection was created (mod 2^16; "c=<counter>" in the prefix sets that counter): @1 is the next ID the
 // connection draws. Without it the peer's IDs are own+0x5000+position.
@@ -66,7 +69,7 @@ import (
 // ---------- scripts ----------
 
 type c11XOp struct {
-	kind byte // 'N', 'C', 'P'
+	kind byte // 'N', 'C', 'P', 'S'
 	r    int  // 0 = the reply never comes
 }
 
@@ -131,7 +134,7 @@ func parseC11XItems(s string) ([]c11XItem, error) {
 	var items []c11XItem
 	for _, f := range strings.Fields(s) {
 		_, p := c11XNum(f, 0)
-		if p >= len(f) || !strings.ContainsRune("qQrapdsoO", rune(f[p])) {
+		if p >= len(f) || !strings.ContainsRune("qQrapdsoOn", rune(f[p])) {
 			return nil, fmt.Errorf("bad item %q", f)
 		}
 		it := c11XItem{kind: f[p]}
@@ -164,7 +167,7 @@ func parseC11XItems(s string) ([]c11XItem, error) {
 			}
 			p++
 			for p < len(f) {
-				if !strings.ContainsRune("NCP", rune(f[p])) {
+				if !strings.ContainsRune("NCPS", rune(f[p])) {
 					return nil, fmt.Errorf("bad program in %q", f)
 				}
 				op := c11XOp{kind: f[p]}
@@ -238,7 +241,7 @@ func mustC11X(layer byte, n, ctr int, script string) c11XSpec {
 func (sp c11XSpec) plan() (map[int][2]int, error) {
 	respOf := map[int][2]int{}
 	k := len(sp.items)
-	want := map[byte]byte{'N': 'r', 'C': 'a', 'P': 'p'}
+	want := map[byte]byte{'N': 'r', 'C': 'a', 'P': 'p', 'S': 'n'}
 	for i, it := range sp.items {
 		m := i + 1
 		isReq := it.kind == 'q' || it.kind == 'Q'
@@ -276,7 +279,7 @@ func (sp c11XSpec) plan() (map[int][2]int, error) {
 		}
 	}
 	for i, it := range sp.items {
-		if it.kind == 'r' || it.kind == 'a' || it.kind == 'p' {
+		if it.kind == 'r' || it.kind == 'a' || it.kind == 'p' || it.kind == 'n' {
 			if _, ok := respOf[i+1]; !ok {
 				return nil, fmt.Errorf("item %d: reply to no operation", i+1)
 			}
@@ -646,6 +649,11 @@ func runC11X(sp c11XSpec) (string, bool) {
 			}
 			req.SetToken(tok)
 			_ = req.SetPath("/nested")
+			if op.kind == 'S' {
+				req.SetObserve(0)
+				_, err := mc.cc.DoObserve(req, func(*pool.Message) {})
+				return err
+			}
 			resp, err := mc.cc.Do(req)
 			if err != nil {
 				return err
@@ -723,6 +731,9 @@ func runC11X(sp c11XSpec) (string, bool) {
 			case 'r':
 				typs[i] = int(message.NonConfirmable)
 				return encodeWire(typs[i], int(codes.Content), mids[i], w.tok, nil, []byte("ok")), key(typs[i], mids[i], w.tok), true
+			case 'n':
+				typs[i] = int(message.NonConfirmable)
+				return encodeWire(typs[i], int(codes.Content), mids[i], w.tok, c11ObserveOpt(7), []byte("ok")), key(typs[i], mids[i], w.tok), true
 			case 'a':
 				typs[i], mids[i] = int(message.Acknowledgement), w.mid
 				return encodeWire(typs[i], int(codes.Content), mids[i], w.tok, nil, []byte("ok")), key(typs[i], mids[i], w.tok), true
@@ -830,6 +841,11 @@ func runC11X(sp c11XSpec) (string, bool) {
 			req.SetCode(codes.GET)
 			req.SetToken(tok)
 			_ = req.SetPath("/nested")
+			if op.kind == 'S' {
+				req.SetObserve(0)
+				_, err := cc.DoObserve(req, func(*pool.Message) {})
+				return err
+			}
 			resp, err := cc.Do(req)
 			if err != nil {
 				return err
@@ -889,6 +905,9 @@ func runC11X(sp c11XSpec) (string, bool) {
 			}
 			if it.kind == 'r' {
 				return c11TCPFrame(codes.Content, w.tok, []byte("ok")), keyT(w.tok), true
+			}
+			if it.kind == 'n' {
+				return c11TCPFrameOpts(codes.Content, w.tok, c11ObserveOpt(7), []byte("ok")), keyT(w.tok), true
 			}
 			return c11TCPFrame(codes.Pong, w.tok, nil), keyT(w.tok), true
 		}
@@ -1039,6 +1058,25 @@ func runC11X(sp c11XSpec) (string, bool) {
 			hang = !wait(fmt.Sprintf("observation %d registered", j), func() bool { return st.obsOK[j] && st.setup >= j })
 		}
 	}
+	// settled: every dispatch that has begun has returned, or is held up for good by a handler that is executing its
+	// program (the handler's own dispatch; a copy of its request waiting for the message-ID lock). What is left is
+	// transient (the tail of a dispatch after its handler returned, a copy let go by a handler that has just finished):
+	// the next item waits for it, so that "one item at a time" also holds for the connection's message-ID counter.
+	settled := func() bool {
+		for _, i := range st.log {
+			if i <= 0 || i > k || st.post[i] > 0 {
+				continue
+			}
+			m := i
+			if sp.items[i-1].kind == 'd' {
+				m = sp.items[i-1].ref
+			}
+			if !(st.ran[m] && !st.done[m]) {
+				return false
+			}
+		}
+		return true
+	}
 	stalled := false
 	for i := 1; i <= k && (!hang || stalled); i++ {
 		it := sp.items[i-1]
@@ -1046,6 +1084,9 @@ func runC11X(sp c11XSpec) (string, bool) {
 		if !ok {
 			hang = true
 			break
+		}
+		if !stalled && !wait(fmt.Sprintf("connection settled before item %d", i), settled) {
+			hang, stalled = true, true
 		}
 		before := ownCtr()
 		addID(kk, i)
@@ -1074,7 +1115,7 @@ func runC11X(sp c11XSpec) (string, bool) {
 			}
 		case 'd':
 			hang = !wait(fmt.Sprintf("dispatch of the copy %d", i), func() bool { return logged(i) })
-		case 'r', 'a', 'p':
+		case 'r', 'a', 'p', 'n':
 			mj := respOf[i]
 			hang = !wait(fmt.Sprintf("reply %d: operation %d.%d returned", i, mj[0], mj[1]), func() bool {
 				if sp.isQueueMsg(i) && !logged(i) {
@@ -1182,7 +1223,7 @@ func runC11X(sp c11XSpec) (string, bool) {
 					r = k + 5
 				}
 				switch o.kind {
-				case 'N':
+				case 'N', 'S':
 					hs = append(hs, fmt.Sprintf("HNested %d", r))
 				case 'C':
 					hs = append(hs, fmt.Sprintf("HAck %d", r), fmt.Sprintf("HNested %d", r))
@@ -1210,7 +1251,7 @@ func c11XTyp(sp c11XSpec, i int, typs []int) int {
 		return 0
 	case 'O':
 		return 0
-	case 'q', 'r', 's', 'o':
+	case 'q', 'r', 's', 'o', 'n':
 		return 1
 	case 'a':
 		return 2
@@ -1303,6 +1344,14 @@ var c11XFixed = []c11XFixedScript{
 	{"TD", -1, "o:N3 o2 r o2:N5 r"},
 	{"TD", -1, "o:N4 o2:N6 o r o2 r"},
 	{"TD", -1, "o o2 o q"},
+	// a handler / an observe callback registers an observation of its own (Conn.DoObserve blocks until the
+	// registration response has been dispatched)
+	{"TD", -1, "q:S2 n q"},
+	{"TD", -1, "q:S3 q n q"},
+	{"TD", -1, "o:S3 o n"},
+	{"TD", -1, "q:S2N3 n r"},
+	{"TD", -1, "q:N4 q:S3 n r"},
+	{"TD", -1, "q:Sx q q"},
 	// udp: confirmable notifications, confirmable nested requests from a callback, a retransmitted notification
 	// whose callback is blocked
 	{"D", -1, "O:N3 O r q"},
@@ -1339,7 +1388,7 @@ func c11XRandom(rng *Rng, maxLen int) c11XSpec {
 	var out []pend
 	blocked := 0
 	target := 3 + rng.Intn(maxLen-2)
-	replyKind := map[byte]byte{'N': 'r', 'C': 'a', 'P': 'p'}
+	replyKind := map[byte]byte{'N': 'r', 'C': 'a', 'P': 'p', 'S': 'n'}
 	items := &sp.items
 	respond := func() {
 		idx := rng.Intn(len(out))
@@ -1378,9 +1427,9 @@ func c11XRandom(rng *Rng, maxLen int) c11XSpec {
 		if withOps {
 			nops := 1 + rng.Intn(2)
 			for j := 0; j < nops; j++ {
-				kinds := "NP"
+				kinds := "NNPPS"
 				if sp.layer == 'D' {
-					kinds = "NCCP"
+					kinds = "NNCCCCPPS"
 				}
 				it.ops = append(it.ops, c11XOp{kind: kinds[rng.Intn(len(kinds))]})
 			}
@@ -1499,7 +1548,7 @@ func c11XCases(e *Emitter, rng *Rng, thorough bool) {
 		}
 		run(c11XRandom(rng, maxLen), "rand")
 	}
-	e.Extra["x_scripts"] = fmt.Sprintf("%d scripts (%d fixed: confirmable nested requests with piggybacked ACK, placed message IDs incl. both 16-bit wraps, retransmitted copies, pings by handlers on tcp and udp, queue 0/1/16; %d random), scripts that did not run to their end %d (of these on the quiescence witness %d, the others on the watchdog), set aside because Do refused a drawn message ID still in use %d, %.2fs", count, fixed, nrand, hangs, c11XStalls, c11XRefused, time.Since(t0).Seconds())
+	e.Extra["x_scripts"] = fmt.Sprintf("%d scripts (%d fixed: confirmable nested requests with piggybacked ACK, placed message IDs incl. both 16-bit wraps, retransmitted copies, pings by handlers on tcp and udp, observe callbacks issuing blocking requests while further notifications arrive, observations registered by handlers / callbacks, queue 0/1/16; %d random), scripts that did not run to their end %d (of these on the quiescence witness %d, the others on the watchdog), set aside because Do refused a drawn message ID still in use %d, %.2fs", count, fixed, nrand, hangs, c11XStalls, c11XRefused, time.Since(t0).Seconds())
 }
 
 func c11XOnly(e *Emitter, only string) {
